@@ -20,7 +20,7 @@ def worlds(tier, rng, real, classes, attrs=False, nmax=6):
         nv = rng.randint(1, nmax)
         lines = ["reset"]
         for i in range(nv):
-            c = rng.choice(["V", "V", "SV", "FV"])
+            c = rng.choice(["V", "V", "SV", "FV", "MX", "MV"])
             a = ""
             if attrs and rng.random() < 0.85:
                 a = " a=0:%d" % rng.choice([0, 1, 2, 3])
@@ -73,6 +73,13 @@ class C16(Check):
                 for rf in ("tok", "repr", "dup"):
                     for s in ("-", "0", "2", "4"):
                         qs.append("plain V%d %s %s" % (u, rf, s))
+            # a render function that reads the vertices; what it reads changes between renders
+            nv = unis[0]
+            for _ in range(3):
+                qs.append("sattr V%d 0 %d" % (rng.randrange(nv), rng.choice([0, 1, 2, 3, 5])))
+                for u in unis[:3]:
+                    for s in ("-", "2"):
+                        qs.append("plain V%d attr %s" % (u, s))
             yield run(real, lines + qs)
 
     def search(self, tier, rng, real, v):
@@ -88,7 +95,9 @@ class C16(Check):
         code = lambda x: 0 if x is None else real.vname(x) + 1  # noqa: E731
         key = None if t[3] == "-" else (lambda x, k=int(t[3]): (code(x) * (k + 1)) % 7)
         pre_ = "r" if t[2] == "repr" else "v"
-        if t[2] == "dup":
+        if t[2] == "attr":
+            r = lambda x: "none" if x is None else ("a%d" % real.valclass(x.a0) if hasattr(x, "a0") else "a-")  # noqa: E731
+        elif t[2] == "dup":
             r = lambda x: "none" if x is None else "w%d" % (real.vname(x) % 2)  # noqa: E731
         else:
             r = lambda x: ("None" if pre_ == "r" else "none") if x is None else "%s%d" % (pre_, real.vname(x))  # noqa: E731
@@ -118,14 +127,14 @@ class C14(Check):
                    "single-inheritance class chains in the option lookup"]
 
     def batches(self, tier, rng, real):
-        for lines, unis in worlds(tier, rng, real, ["D", "U", "DD", "UU"] + (["X"] if rng.random() < 0.15 else []), attrs=True, nmax=4):
-            qs = ["puml V%d %d" % (u, o) for u in unis for o in (0, 1, 2, 3, 4)]
+        for lines, unis in worlds(tier, rng, real, ["D", "U", "DD", "UU"] + (["X"] if rng.random() < 0.15 else []) + (["DU"] if rng.random() < 0.3 else []), attrs=True, nmax=4):
+            qs = ["puml V%d %d" % (u, o) for u in unis for o in (0, 1, 2, 3, 4, 5, 6)]
             # an attribute used by the title format changes between two renders of the same vertices
             nv = unis[0]
             more = []
             for _ in range(2):
                 more.append("sattr V%d 0 %d" % (rng.randrange(nv), rng.choice([0, 1, 2, 3])))
-                more += ["puml V%d %d" % (u, o) for u in unis[:2] for o in (2, 4)]
+                more += ["puml V%d %d" % (u, o) for u in unis[:2] for o in (2, 4, 5)]
             yield run(real, lines + qs + more)
 
     def search(self, tier, rng, real, v):
@@ -145,8 +154,18 @@ class C14(Check):
         rels = [r for r in m.group(2).split(",") if r]
         members = u.vertices
 
+        # the option tables as the statement reads them: configured class -> (type, title from attribute a0?)
+        conf = {Vertex: ("object", False)}
+        conf.update({1: {poolmod.SV: ("class", False)}, 2: {Vertex: ("object", True)},
+                     4: {poolmod.SV: ("class", True)}, 5: {poolmod.MX: ("entity", True)},
+                     6: {poolmod.SV: ("class", False), poolmod.MX: ("entity", True)}}.get(o, {}))
+
+        def nearest(v):
+            # nearest configured class in the hierarchy = first configured class of the linearised hierarchy
+            return conf[next(c for c in type(v).__mro__ if c in conf)]
+
         def title(v):
-            if o == 2 or (o == 4 and isinstance(v, poolmod.SV)):
+            if nearest(v)[1]:
                 from adapter import Real
                 return "T%d" % Real.valclass(getattr(v, "a0"))
             return "id%d" % real.vname(v)
@@ -157,7 +176,7 @@ class C14(Check):
             return None      # an attribute-based title of a vertex without the attribute: raising input
         if len(set(titles.values())) != len(titles):
             return None      # titles not injective: outside the statement's reading
-        vtype = lambda v: "class" if (o in (1, 4) and isinstance(v, poolmod.SV)) else "object"  # noqa: E731
+        vtype = lambda v: nearest(v)[0]  # noqa: E731
         want_decls = ["%s %s <<%s>>" % (vtype(v), title(v), type(v).__name__) for v in members]
         if decls != want_decls:
             return "%s: declarations %r, members give %r" % (line, decls, want_decls)
